@@ -94,7 +94,7 @@ theorem consumerDelete (ps : Params) :
     state, `setLogLevel` and `handleReady`, and unknown names are excluded) -/
 theorem handleH_code (ps : Params) (h : H) (h1 : h ≠ .setLogLevel) (h2 : h ≠ .ready) (h3 : h ≠ .unknown) :
     (handleH be w ps h).2.code = 200 ∨ (handleH be w ps h).2.code = 404 := by
-  cases h <;> simp [handleH, ok, notFoundErr, moduleDetail, moduleDetailAt, moduleList, notifierDetailResp, notifierDetailAt] at * <;>
+  cases h <;> simp [handleH, ok, notFoundErr, moduleDetail, moduleDetailAt, moduleConfigured, moduleList, notifierDetailResp, notifierDetailAt] at * <;>
     (repeat' split) <;> first | (simp_all [ok, notFoundErr]; done) | exact (Classical.em _).symm | exact Classical.em _
 
 /-! ### purity of GETs -/
